@@ -335,10 +335,22 @@ def layout(repo, rep, rule):
         rep.ok(rule, f"{SPECPART_C}:{cf.line(n)} partition", "zp[freq + mk*dir]", "matches ptnghb's i + mk*j (j circular = direction)")
     n2, oi, ii = copyout
     env2 = roles(n2)
+    flat = None
     if env2 is None:
+        # a flat copy  for (i = 0; i < nspec; i++) ipart[i] = imo[i]  is the identity on positions: the output has imo's own layout
+        lp = _loops_of(cf, n2)
+        if lp is not None and len(lp) == 1:
+            (v, cl), = lp.items()
+            hi = poly_of(cl[2], {"nspec": MK * MTH})
+            if poly_of(cl[1]) == Poly.const(0) and cl[3] and hi == MK * MTH and oi == ii == ("var", v):
+                flat = True
+    if env2 is None and not flat:
         rep.fail(rule, SPECPART_C, cf.line(n2), "partition", cf.text(n2), "copy-out loops do not range over (mk, mth)")
         return
-    opoly, ipoly = poly_of(oi, env2), poly_of(ii, env2)
+    if flat:
+        opoly = ipoly = F_FAST
+    else:
+        opoly, ipoly = poly_of(oi, env2), poly_of(ii, env2)
     if ipoly != F_FAST:
         rep.fail(rule, SPECPART_C, cf.line(n2), "partition", cf.text(n2), f"labels are read from imo[{ipoly}], not imo[freq + mk*dir]")
     # wrapper
